@@ -56,6 +56,16 @@ benign("continuous-counter-renamed", "continuous counter renamed", (MP, "crFrame
 benign("detect-result-local", "Detect result kept in a local before use", (MP, "\tif mp.motionDetector.Detect(frame) {\n", "\tmotion := mp.motionDetector.Detect(frame)\n\tif motion {\n", False))
 benign("writer-frame-var-renamed", "thermal-writer loop variable renamed", (TW, "\t\tframe := <-spentFrames\n\t\t_, err := io.ReadFull(reader, frame)", "\t\tbuf := <-spentFrames\n\t\t_, err := io.ReadFull(reader, buf)", False), (TW, "\t\twriteFrames <- frame\n", "\t\twriteFrames <- buf\n", False))
 
+SNAPF = "cmd/thermal-recorder/snapshot.go"
+SVCF = "cmd/thermal-recorder/service.go"
+benign("rename-private-functions", "private functions renamed across the recorder and the writer",
+       (MAIN, "handleConn", "serveCamera", True), (MAIN, "runMain", "run", True), (MAIN, "frameParser", "selectParser", True), (MAIN, "convertRawBosonFrame", "parseBoson", True),
+       ("cmd/thermal-recorder/boson.go", "convertRawBosonFrame", "parseBoson", True), (MAIN, "deleteTempFiles", "cleanUp", True), (CF, "deleteTempFiles", "cleanUp", True),
+       (SNAPF, "newSnapshotRecording", "requestTestRecording", True), (SVCF, "newSnapshotRecording", "requestTestRecording", True), (SNAPF, "newSnapshot(", "grabSnapshot(", True), (SVCF, "newSnapshot(", "grabSnapshot(", True),
+       (TW, "handleConn", "serveCamera", True), (TW, "runMain", "run", True), ("cmd/thermal-writer/thermalraw.go", "newThermalRaw", "openRaw", True), (TW, "newThermalRaw", "openRaw", True),
+       ("cmd/thermal-writer/bufferedfile.go", "bufferedFile", "flushingFile", True), ("cmd/thermal-writer/bufferedfile.go", "newBufferedFile", "newFlushingFile", True), ("cmd/thermal-writer/thermalraw.go", "bufferedFile", "flushingFile", True), ("cmd/thermal-writer/thermalraw.go", "newBufferedFile", "newFlushingFile", True),
+       (CF, "renameTempRecording", "publishRecording", True), (CF, "recordingFinalName", "finalNameOf", True), (CF, "newRecordingTempName", "tempName", True), (CF, "checkDiskSpace", "enoughDisk", True))
+
 here = os.path.dirname(os.path.abspath(__file__))
 for f in os.listdir(os.path.join(here, "benign")):
     os.unlink(os.path.join(here, "benign", f))
